@@ -12,16 +12,16 @@ from harness import tlc
 from harness.replay import wire_bind as wb
 
 INVARIANTS = ["TypeOK", "DateRoundTrip", "DateEncoding", "DateRangeExact", "DateBlocks", "PackedIsText", "TimeRoundTrip",
-              "TimeRejectJustified", "UuidLayout", "UuidDecode", "UuidOffset", "UuidBounds", "Uuid100Decode", "OrderSane"]
+              "TimeRejectJustified", "TimeLongFraction", "UuidLayout", "UuidDecode", "UuidOffset", "UuidBounds", "Uuid100Decode", "OrderSane"]
 WITNESSES = {
     "date": ["Witness_LeapCentury", "Witness_NoLeapCentury", "Witness_YearOne", "Witness_Year9999", "Witness_DateOutside"],
-    "time": ["Witness_LastNano", "Witness_ShortForms", "Witness_TimeNegative", "Witness_TimeString60", "Witness_TimeOpen"],
+    "time": ["Witness_LastNano", "Witness_ShortForms", "Witness_TimeNegative", "Witness_TimeString60", "Witness_TimeOpen", "Witness_LongFraction"],
     "uuid": ["Witness_TimeLowWraps", "Witness_Pre1970", "Witness_SignBitNode", "Witness_Last60"],
     "pair": ["Witness_SignedDiffers"],
     "uuid100": ["Witness_Rem"],
 }
 FAMILIES = ["date", "time", "uuid", "uuid100", "pair"]
-ACTIONS = {"date": 2, "time": 3, "uuid": 1, "uuid100": 1, "pair": 1, "dateall": 1}      # kinds of cases per family (see kinds_seen)
+ACTIONS = {"date": 2, "time": 4, "uuid": 1, "uuid100": 1, "pair": 1, "dateall": 1}      # kinds of cases per family (see kinds_seen)
 JVM = {"JAVA_TOOL_OPTIONS": "-XX:TieredStopAtLevel=1 -XX:ParallelGCThreads=2 -Xms1g"}
 BLOCK = 1024
 FIRST_DAY, LAST_DAY = -719162, 2932896
